@@ -516,7 +516,16 @@ impl World {
                 ))
             }
         }
-        let want = self.model_files(st);
+        let mut want = self.model_files(st);
+        // An absent active file and an empty one hold the same records (none): no property says which
+        // of the two a rotation leaves behind, so the comparison does not distinguish them.
+        let active = self.active_rel().to_string();
+        if got.get(&active).map_or(false, |b| b.is_empty()) {
+            got.remove(&active);
+        }
+        if want.get(&active).map_or(false, |b| b.is_empty()) {
+            want.remove(&active);
+        }
         if got != want {
             // classify
             for (name, w) in &want {
@@ -587,30 +596,22 @@ impl World {
     }
 }
 
-/// With the `background_rotation` feature the roller renames the rolled file to `<stem>.<seconds>` and
-/// rotates in a thread of its own; the rotation is complete when that temporary file is gone.  The
-/// interleavings of that thread are not explored (DESIGN §8): every observation waits for quiescence.
-pub fn wait_quiescent(dir: &std::path::Path) {
+/// With the `background_rotation` feature the roller parks the rolled file under a temporary name and
+/// rotates in a thread of its own.  Histories (E-HIST) observe the directory only when no such thread is
+/// alive any more: the shimmed `thread::spawn` reports creation and end of every library thread to the
+/// hooks, so this does not depend on how the temporary file is called.  (The interleavings of those
+/// threads are explored separately, by E-SCHED.)
+pub fn wait_quiescent(_dir: &std::path::Path) {
     if !cfg!(feature = "background_rotation") {
         return;
     }
     let start = std::time::Instant::now();
-    loop {
-        let busy = std::fs::read_dir(dir)
-            .map(|rd| {
-                rd.flatten().any(|e| {
-                    let n = e.file_name().to_string_lossy().into_owned();
-                    match n.rsplit_once('.') {
-                        Some((_, ext)) => !ext.is_empty() && ext.len() >= 9 && ext.bytes().all(|b| b.is_ascii_digit()),
-                        None => false,
-                    }
-                })
-            })
-            .unwrap_or(false);
-        if !busy || start.elapsed() > std::time::Duration::from_secs(5) {
-            return;
+    while crate::engine::hooks::live_spawned_threads() > 0 {
+        if start.elapsed() > std::time::Duration::from_secs(20) {
+            eprintln!("MACHINERY FAILURE: a background rotation thread did not finish within 20 s");
+            std::process::exit(2);
         }
-        std::thread::sleep(std::time::Duration::from_micros(200));
+        std::thread::sleep(std::time::Duration::from_micros(100));
     }
 }
 
